@@ -379,7 +379,7 @@ def component(tier='quick', seed=0, known=()):
     with ctx.Pool(16) as pool:
         out = pool.map(run_one, [tasks[i] for i in order], chunksize=1)
     out.sort(key=lambda r: (r['label']['alg'], r['label']['kind']))
-    violations, known_hits, outcomes, exempt = [], [], {}, {}
+    violations, known_hits, outcomes, exempt, vclasses = [], [], {}, {}, {}
     evals = distinct = controls = 0
     info = {'unhashed': [0, 0], 'left16': [0, 0]}
     for r in out:
@@ -401,7 +401,18 @@ def component(tier='quick', seed=0, known=()):
                 if k not in known_hits:
                     known_hits.append(k)
             else:
-                violations.append(v)
+                c = v['case']
+                cls = '%s: %s' % (c['kind'], c.get('mutation') or c.get('control'))
+                e = vclasses.setdefault(cls, {'count': 0, 'algorithms': [], 'octets': []})
+                e['count'] += 1
+                if c['alg'] not in e['algorithms']:
+                    e['algorithms'].append(c['alg'])
+                if isinstance(c.get('detail'), dict) and 'bit' in c['detail'] and c['detail']['bit'] // 8 not in e['octets']:
+                    e['octets'].append(c['detail'].get('octet', c['detail']['bit'] // 8))
+                if e['count'] == 1:
+                    violations.append(v)
+    for e in vclasses.values():
+        e['octets'] = sorted(set(e['octets']))
     return {'name': 'C01/signature-soundness',
             'bound': '%d PGPy-made signatures (%s) x (%s): every single-bit flip of the version/type/pubalg/hashalg octets, the hashed-subpacket count, '
                      'every hashed-area octet and the MPI region; every single-bit flip of the document / user id, a seeded sample of single-bit flips of '
@@ -421,7 +432,8 @@ def component(tier='quick', seed=0, known=()):
             'informational_unprotected_flips': {'unhashed area: accepted/total': info['unhashed'], 'left-16 field: accepted/total': info['left16']},
             'samples': [dict(r['label'], evals=r['evals'], outcomes=r['outcomes']) for r in out[:4]],
             'violations': violations[:5],
-            'violations_total': len(violations),
+            'violations_total': sum(e['count'] for e in vclasses.values()),
+            'violation_classes': vclasses,
             'known_hits': known_hits,
             'component_wall_s': round(time.time() - t0, 2)}
 
